@@ -42,6 +42,9 @@ M = [
   "    for transtion_cylce in schedule.next_day_transition_of(vehicle_type).cycles_iter().skip(1) {", ["C05", "C16"]),
  ("c06_three_opt_underflow", "solver/src/transition_cycle_tsp/transition_cycle_neighborhood.rs",
   "(0..cycle_length.saturating_sub(2))", "(0..cycle_length - 2)", ["C06", "C15"]),
+ ("c07_unbounded_formation_is_100", "solver/src/min_cost_flow_solver.rs",
+  "                .map_or(unbounded_formation_count, |limit| limit as UpperBound);\n            let left_rsnode",
+  "                .map_or(100, |limit| limit as UpperBound);\n            let left_rsnode", ["C07"]),
  ("c07_flow_lower_bound_minus_one", "solver/src/min_cost_flow_solver.rs",
   "            let lower_bound = number_of_vehicles_required.min(maximal_formation_count);",
   "            let lower_bound = (number_of_vehicles_required.min(maximal_formation_count) - 1).max(0);", ["C07", "C14"]),
